@@ -45,6 +45,23 @@ theorem condSignal_fields (s : St) :
   unfold condSignal
   cases s.waiters <;> simp
 
+theorem condBroadcast_ph (s : St) (q : Nat) : ((condBroadcast s).ps q).ph = (s.ps q).ph := by
+  unfold condBroadcast; simp only []; split <;> rfl
+
+theorem condBroadcast_el (s : St) (q : Nat) : ((condBroadcast s).ps q).el = (s.ps q).el := by
+  unfold condBroadcast; simp only []; split <;> rfl
+
+theorem condBroadcast_canc (s : St) (q : Nat) : ((condBroadcast s).ps q).canc = (s.ps q).canc := by
+  unfold condBroadcast; simp only []; split <;> rfl
+
+/-- same shape as `condSignal_fields` -/
+theorem condBroadcast_fields (s : St) :
+    (condBroadcast s).items = s.items ∧ (condBroadcast s).inflight = s.inflight ∧ (condBroadcast s).size = s.size ∧
+    (condBroadcast s).stopped = s.stopped ∧ (condBroadcast s).cwait = s.cwait ∧ (condBroadcast s).results = s.results ∧
+    (condBroadcast s).accepted = s.accepted ∧ (condBroadcast s).refused = s.refused ∧ (condBroadcast s).handed = s.handed ∧
+    (condBroadcast s).finished = s.finished ∧ (condBroadcast s).outcomes = s.outcomes :=
+  ⟨rfl, rfl, rfl, rfl, rfl, rfl, rfl, rfl, rfl, rfl, rfl⟩
+
 theorem pop_some {s s' : St} (h : pop s = some s') :
     ∃ id el t, s.items = (id, el) :: t ∧
       s' = { s with items := t, inflight := s.inflight ++ [(id, el)], handed := s.handed ++ [id] } := by
@@ -204,7 +221,9 @@ theorem InvH.tryAdd {k : Cfg} {s : St} {p : Nat} {el : Int} (h : InvH s) (ho : (
   unfold OtelVerif.C02.tryAdd
   split
   · split
-    · exact h.register ho
+    · split
+      · exact h.refuse ho
+      · exact h.register ho
     · exact h.refuse ho
   · split
     · exact h.refuse ho
@@ -213,6 +232,9 @@ theorem InvH.tryAdd {k : Cfg} {s : St} {p : Nat} {el : Int} (h : InvH s) (ho : (
 theorem InvH.condSignal {s : St} (h : InvH s) : InvH (condSignal s) := by
   obtain ⟨h1, _, _, _, _, _, h7, h8, h9, _, _⟩ := condSignal_fields s
   exact h.of_ps h9 h1 h7 h8 (fun q => Or.inl (condSignal_ph s q))
+
+theorem InvH.condBroadcast {s : St} (h : InvH s) : InvH (condBroadcast s) :=
+  h.of_ps rfl rfl rfl rfl (fun q => Or.inl (condBroadcast_ph s q))
 
 theorem InvH.setPh {s : St} {p : Nat} {x : P} (h : InvH s)
     (hx : x.ph = (s.ps p).ph ∨ (s.ps p).ph.open ∨ ∃ r, x.ph = .done r) : InvH (setP s p x) := by
